@@ -2,7 +2,7 @@
 SPECIFICATION ISpecH
 CONSTANTS
   Keys <- K2
-  Bounds <- B2
+  Bounds <- B3tiny
   OpenRanges <- OR1
   BaseInit <- BaseA
   SetVals <- ValById
